@@ -2006,16 +2006,18 @@ theorem mergeClusters_props (b : Buf) (s e : Nat) (hwf : WF b) (hs : b.idx ≤ s
       (b.level ≠ 2 → ∀ μ, IsMinCluster μ (lview b) → IsMinCluster μ (lview b')) ∧
       (b.level ≠ 2 → 2 ≤ e - s → SandwichUp (lview b) (b.outLen + (s - b.idx)) (b.outLen + (e - b.idx)) → NonDecr (lview b')) ∧
       (b.level ≠ 2 → 2 ≤ e - s → SandwichDown (lview b) (b.outLen + (s - b.idx)) (b.outLen + (e - b.idx)) → NonIncr (lview b')) ∧
-      (b.level ≠ 2 → 2 ≤ e - s → ∃ m, ∀ q, b.outLen + (s - b.idx) ≤ q → q < b.outLen + (e - b.idx) → cl? (lview b') q = some m) := by
+      (b.level ≠ 2 → 2 ≤ e - s → ∃ m, ∀ q, b.outLen + (s - b.idx) ≤ q → q < b.outLen + (e - b.idx) → cl? (lview b') q = some m) ∧
+      b'.info.length = b.info.length ∧ b'.out.length = b.out.length ∧ b'.successful = b.successful := by
   by_cases hshort : e - s < 2
   · refine ⟨b, ?_, hwf, rfl, rfl, rfl, rfl, rfl, rfl, MergeProps.refl _, fun _ μ h => h, fun _ h => by omega, fun _ h => by omega,
-      fun _ h => by omega⟩
+      fun _ h => by omega, rfl, rfl, rfl⟩
     unfold mergeClusters; simp [hshort]; rfl
   · by_cases hl : b.level = 2
     · obtain ⟨b', hb, hf⟩ := unsafeToBreak_ok b s e hwf (by omega) he
       have h1 := hf.1
       refine ⟨b', ?_, hf.wf hwf, by rw [h1], by rw [h1], by rw [h1], by rw [h1], by rw [h1], by rw [h1], hf.props,
-        fun h => absurd hl h, fun h => absurd hl h, fun h => absurd hl h, fun h => absurd hl h⟩
+        fun h => absurd hl h, fun h => absurd hl h, fun h => absurd hl h, fun h => absurd hl h,
+        hf.2.1.length, hf.2.2.length, by rw [h1]⟩
       unfold mergeClusters mergeClustersImpl
       simp only [hshort, if_false, hl, beq_self_eq_true, if_true]
       rw [hb]
@@ -2023,7 +2025,8 @@ theorem mergeClusters_props (b : Buf) (s e : Nat) (hwf : WF b) (hs : b.idx ≤ s
       have h1 := hsh.1
       have hSE : b.outLen + (s - b.idx) < b.outLen + (e - b.idx) := by omega
       refine ⟨b', hb, hsh.wf hwf, by rw [h1], by rw [h1], by rw [h1], by rw [h1], by rw [h1], by rw [h1], hm.props hSE,
-        fun _ μ hμ => hm.min_kept hSE hμ, fun _ _ hsw => hm.nonDecr hSE hsw, fun _ _ hsw => hm.nonIncr hSE hsw, ?_⟩
+        fun _ μ hμ => hm.min_kept hSE hμ, fun _ _ hsw => hm.nonDecr hSE hsw, fun _ _ hsw => hm.nonIncr hSE hsw, ?_,
+        hsh.2.1, hsh.2.2, by rw [h1]⟩
       intro _ _
       refine ⟨m, fun q h1 h2 => ?_⟩
       have hql : q < (lview b).length := by
@@ -2434,7 +2437,7 @@ theorem deleteGlyph_props (b : Buf) (hwf : WF b) (hcur : b.idx < b.len) (hg : Ge
       rw [hc'] at h3
       rw [h3]
   · -- nothing on the output side: merge with the next glyph
-    obtain ⟨b2, hm, hwf2, e1, e2, e3, e4, e5, e6, hprops, hmin, _, _, hunif⟩ :=
+    obtain ⟨b2, hm, hwf2, e1, e2, e3, e4, e5, e6, hprops, hmin, _, _, hunif, _⟩ :=
       mergeClusters_props b b.idx (b.idx + 2) hwf (Nat.le_refl _) (by omega) hg
     have hb1' : b1 = pure b2 := by rw [hb1, hm]; rfl
     subst hb1'
@@ -2875,7 +2878,7 @@ theorem mergeThenReverse (b : Buf) (s e : Nat) (hin : InPlace b) (hse : s ≤ e)
     ∃ b', (b.mergeClusters s e >>= fun b1 => b1.reverseRange s e) = .ok b' ∧ InPlace b' ∧ b'.len = b.len ∧
       b'.level = b.level ∧ KeepProps (lview b) (lview b') := by
   have hwf := hin.wf
-  obtain ⟨b1, hm, hwf1, e1, e2, e3, e4, _, _, hprops, hmin, _, _, hunif⟩ :=
+  obtain ⟨b1, hm, hwf1, e1, e2, e3, e4, _, _, hprops, hmin, _, _, hunif, _⟩ :=
     mergeClusters_props b s e hwf (by rw [hin.idx0]; omega) he hg
   have hin1 : InPlace b1 := ⟨by rw [e1]; exact hin.idx0, by rw [e3]; exact hin.out0, hwf1.len_le⟩
   have hk1 : KeepProps (lview b) (lview b1) := ⟨hprops.subset, hprops.nonDecr, hprops.nonIncr, hmin hl⟩
@@ -2972,5 +2975,979 @@ theorem reverseGroupsG_merge_props (b : Buf) (hin : InPlace b) (hl : b.level ≠
       · intro h; rw [hrev]; exact nonDecr_reverse (hk.nonIncr h)
       · intro μ h; rw [hrev]; exact isMin_reverse (hk.min μ h)
 
+
+end RbModel.Buf
+
+namespace RbModel.Buf
+open RbModel.Mem
+
+/-! ## `reverse_groups` over graphemes without merging -/
+
+/-- every grapheme (a glyph followed by its continuation glyphs) of `A[0..n)` carries one cluster value —
+    what `form_clusters` establishes at cluster level 0 -/
+def GraphemesClosed (A : List Info) (n : Nat) : Prop :=
+  ∀ q x y, 0 < q → q < n → A[q - 1]? = some x → A[q]? = some y → isContinuation y = true → y.cluster = x.cluster
+
+/-- loop invariant of `reverse_groups(grapheme, merge = false)` relative to the Vec `A` it started from -/
+structure RevInv (A : List Info) (b : Buf) (start i : Nat) : Prop where
+  inplace : InPlace b
+  ilen : b.info.length = A.length
+  untouched : ∀ q, start ≤ q → b.info[q]? = A[q]?
+  conts : ∀ q, start < q → q < i → ∃ y, A[q]? = some y ∧ isContinuation y = true
+  clusters : ∀ q, cl? b.info q = cl? A q
+
+theorem RevInv.uniform {A : List Info} {b : Buf} {start i : Nat} (h : RevInv A b start i) (hc : GraphemesClosed A b.len)
+    (hi : i ≤ b.len) : ∀ q, start ≤ q → q < i → cl? b.info q = cl? A start := by
+  have hle := h.inplace.len_le
+  intro q h1 h2
+  rw [h.clusters q]
+  induction q with
+  | zero =>
+    have : start = 0 := by omega
+    rw [this]
+  | succ q ih =>
+    by_cases hq : start = q + 1
+    · rw [hq]
+    · rw [← ih (by omega) (by omega)]
+      obtain ⟨y, hy, hcont⟩ := h.conts (q + 1) (by omega) h2
+      have hq1 : q < A.length := by rw [← h.ilen]; omega
+      have := hc (q + 1) A[q] y (by omega) (by omega) (by simp [List.getElem?_eq_getElem hq1]) hy hcont
+      unfold cl?
+      rw [hy, List.getElem?_eq_getElem hq1]
+      simp [this]
+
+theorem RevInv.step_reverse {A : List Info} {b : Buf} {start i : Nat} (h : RevInv A b start i) (hc : GraphemesClosed A b.len)
+    (hsi : start ≤ i) (hi : i ≤ b.len) :
+    ∃ b', b.reverseRange start i = .ok b' ∧ b'.len = b.len ∧ RevInv A b' i (i + 1) := by
+  have hle := h.inplace.len_le
+  have hsl : start ≤ b.info.length := by omega
+  obtain ⟨c, hcs⟩ : ∃ c : Nat, ∀ q v, start ≤ q → q < i → cl? b.info q = some v → v = c := by
+    by_cases hlt : start < b.info.length
+    · refine ⟨b.info[start].cluster, fun q v h1 h2 hv => ?_⟩
+      rw [h.uniform hc hi q h1 h2, ← h.clusters start, cl?_lt hlt] at hv
+      exact (Option.some.inj hv).symm
+    · refine ⟨0, fun q v h1 h2 hv => ?_⟩
+      have := cl?_some_lt hv; omega
+  obtain ⟨I, hr, hIl, hp, hcl⟩ := reverseRange_uniform b start i c hsi (by omega) hcs
+  refine ⟨_, hr, rfl, ⟨⟨h.inplace.idx0, h.inplace.out0, by simp; rw [hIl]; exact hle⟩, by simp; rw [hIl]; exact h.ilen, ?_, ?_, ?_⟩⟩
+  · intro q hq
+    simp only
+    rw [hp.outside q (Or.inr hq)]
+    exact h.untouched q (by omega)
+  · intro q h1 h2; omega
+  · intro q; simp only; rw [hcl q]; exact h.clusters q
+
+theorem revGroupsLoop_nomerge (A : List Info) : ∀ (fuel : Nat) (b : Buf) (start i : Nat),
+    RevInv A b start i → GraphemesClosed A b.len → start ≤ i → 1 ≤ i → i ≤ b.len →
+    ∃ b' s' i', revGroupsLoop false b start i fuel = .ok (b', s', i') ∧ b'.len = b.len ∧ s' ≤ i' ∧ i' ≤ b.len ∧
+      RevInv A b' s' i' := by
+  intro fuel
+  induction fuel with
+  | zero =>
+    intro b start i h _ h1 _ h3
+    exact ⟨b, start, i, rfl, rfl, h1, h3, h⟩
+  | succ fuel ih =>
+    intro b start i h hc h1 h2 h3
+    by_cases hi : i < b.len
+    · have hle := h.inplace.len_le
+      have hi0 : ¬ i = 0 := by omega
+      have ha : i - 1 < b.info.length := by omega
+      have hci : i < b.info.length := by omega
+      simp only [revGroupsLoop, hi, if_true, hi0, if_false, get_ok ha, get_ok hci, ok_bind]
+      by_cases hcont : isContinuation b.info[i] = true
+      · simp only [hcont, Bool.not_true, Bool.false_eq_true, if_false]
+        refine ih b start (i + 1) ⟨h.inplace, h.ilen, h.untouched, ?_, h.clusters⟩ hc (by omega) (by omega) (by omega)
+        intro q q1 q2
+        by_cases hq : q = i
+        · subst hq
+          refine ⟨b.info[q], ?_, hcont⟩
+          rw [← h.untouched q h1]; exact List.getElem?_eq_getElem hci
+        · exact h.conts q q1 (by omega)
+      · have : (!isContinuation b.info[i]) = true := by simpa using hcont
+        simp only [this, if_true, Bool.false_eq_true, if_false, pure_bind']
+        obtain ⟨b1, hr, l1, hinv1⟩ := h.step_reverse hc h1 (by omega)
+        rw [hr]
+        simp only [ok_bind]
+        obtain ⟨b', s', i', hr', l', hs', hi', hinv'⟩ := ih b1 i (i + 1) hinv1 (by rw [l1]; exact hc) (by omega) (by omega) (by rw [l1]; omega)
+        exact ⟨b', s', i', hr', by rw [l', l1], hs', by rw [← l1]; exact hi', hinv'⟩
+    · refine ⟨b, start, i, ?_, rfl, h1, h3, h⟩
+      simp only [revGroupsLoop, hi, if_false]; rfl
+
+/-- **reverse_groups over graphemes without merging (cluster level 0)**: when every grapheme carries one cluster
+    value, the cluster sequence comes out exactly reversed -/
+theorem reverseGroupsG_nomerge_props (b : Buf) (hin : InPlace b) (hc : GraphemesClosed b.info b.len) :
+    ∃ b', b.reverseGroupsG false = .ok b' ∧ InPlace b' ∧ b'.len = b.len ∧
+      (lview b').map (·.cluster) = ((lview b).map (·.cluster)).reverse := by
+  unfold reverseGroupsG
+  by_cases h0 : b.len = 0
+  · refine ⟨b, by simp [h0]; rfl, hin, rfl, ?_⟩
+    rw [hin.lview, h0]; rfl
+  · have hb0 : (b.len == 0) = false := by simpa using h0
+    simp only [hb0, Bool.false_eq_true, if_false]
+    have hinv0 : RevInv b.info b 0 1 := ⟨hin, rfl, fun _ _ => rfl, fun q a c => by omega, fun _ => rfl⟩
+    obtain ⟨b1, s1, i1, hr, l1, hs1, hi1, hinv1⟩ := revGroupsLoop_nomerge b.info b.len b 0 1 hinv0 hc (by omega) (by omega) (by omega)
+    simp only [hr, ok_bind, Bool.false_eq_true, if_false, pure_bind']
+    obtain ⟨b2, hr2, l2, hinv2⟩ := hinv1.step_reverse (by rw [l1]; exact hc) hs1 (by rw [l1]; exact hi1)
+    rw [hr2]
+    simp only [ok_bind]
+    obtain ⟨b3, hb3, hin3, l3, _, hrev⟩ := reverse_spec b2 hinv2.inplace
+    refine ⟨b3, hb3, hin3, by rw [l3, l2, l1], ?_⟩
+    rw [hrev, List.map_reverse]
+    congr 1
+    apply List.ext_getElem?
+    intro q
+    have := hinv2.clusters q
+    rw [List.getElem?_map, List.getElem?_map, hinv2.inplace.lview, hin.lview, l2, l1]
+    have h1 := cl?_take b2.info b.len q
+    have h2 := cl?_take b.info b.len q
+    unfold cl? at h1 h2 this
+    rw [h1, h2, this]
+
+
+end RbModel.Buf
+
+namespace RbModel.Buf
+open RbModel.Mem
+
+/-! ## `sort` (insertion sort that merges clusters over every move) -/
+
+theorem sort_findJ_spec (l : List Info) (xi : Info) (start : Nat) : ∀ (i : Nat), i ≤ l.length →
+    ∃ j, sort.findJ l xi start i = .ok j ∧ j ≤ i ∧ (start ≤ i → start ≤ j) := by
+  intro i
+  induction i with
+  | zero => intro _; exact ⟨0, rfl, Nat.le_refl _, fun h => h⟩
+  | succ i ih =>
+    intro h
+    have hi : i < l.length := by omega
+    by_cases hgt : i + 1 > start
+    · simp only [sort.findJ, hgt, if_true, get_ok hi, ok_bind]
+      split
+      · obtain ⟨j, hj, h1, h2⟩ := ih (by omega)
+        exact ⟨j, hj, by omega, fun _ => h2 (by omega)⟩
+      · exact ⟨i + 1, rfl, Nat.le_refl _, fun h => h⟩
+    · simp only [sort.findJ, hgt, if_false]
+      exact ⟨i + 1, rfl, Nat.le_refl _, fun h => h⟩
+
+theorem sort_shift_spec (j : Nat) : ∀ (k : Nat) (l : List Info), j + k + 1 ≤ l.length →
+    ∃ r, sort.shift l j k = .ok r ∧ r.length = l.length ∧
+      ∀ q, r[q]? = if j < q ∧ q ≤ j + k then l[q - 1]? else l[q]? := by
+  intro k
+  induction k with
+  | zero =>
+    intro l _
+    refine ⟨l, rfl, rfl, fun q => ?_⟩
+    rw [if_neg (by omega)]
+  | succ k ih =>
+    intro l h
+    have h1 : k + j < l.length := by omega
+    have h2 : k + j + 1 < l.length := by omega
+    obtain ⟨r, hr, hlen, hq⟩ := ih (l.set (k + j + 1) l[k + j]) (by simp; omega)
+    refine ⟨r, ?_, by simpa using hlen, fun q => ?_⟩
+    · simp only [sort.shift, get_ok h1, ok_bind, put_ok _ h2]; exact hr
+    · rw [hq q]
+      by_cases hq1 : q = k + j + 1
+      · subst hq1
+        rw [if_neg (by omega), if_pos (by omega), List.getElem?_set_self h2]
+        have : k + j + 1 - 1 = k + j := by omega
+        rw [this, List.getElem?_eq_getElem h1]
+      · by_cases hq2 : j < q ∧ q ≤ j + k
+        · rw [if_pos hq2, if_pos (by omega), List.getElem?_set_ne (by omega)]
+        · rw [if_neg hq2, if_neg (by omega), List.getElem?_set_ne (by omega)]
+
+/-- one move of the insertion sort: merge `[j, i+1)`, then rotate the record at `i` down to `j` -/
+theorem sort_move (b : Buf) (j i : Nat) (hin : InPlace b) (hji : j < i) (hi : i < b.len) (hg : Gen.Buf.extendStartGuard = 1) :
+    ∃ b', (do let b1 ← b.mergeClusters j (i + 1)
+              let t ← get b1.info i
+              let info ← sort.shift b1.info j (i - j)
+              let info ← put info j t
+              pure ({ b1 with info := info } : Buf)) = .ok b' ∧
+      InPlace b' ∧ b'.len = b.len ∧ b'.level = b.level ∧
+      ValuesSubset (lview b') (lview b) ∧ (b.level ≠ 2 → KeepProps (lview b) (lview b')) := by
+  have hwf := hin.wf
+  obtain ⟨b1, hm, hwf1, e1, e2, e3, e4, _, _, hprops, hmin, _, _, hunif, _⟩ :=
+    mergeClusters_props b j (i + 1) hwf (by rw [hin.idx0]; omega) (by omega) hg
+  have hin1 : InPlace b1 := ⟨by rw [e1]; exact hin.idx0, by rw [e3]; exact hin.out0, hwf1.len_le⟩
+  have hle1 := hin1.len_le
+  have hil : i < b1.info.length := by omega
+  obtain ⟨r, hr, hrl, hrq⟩ := sort_shift_spec j (i - j) b1.info (by omega)
+  have hjl : j < r.length := by omega
+  have hq3 : ∀ q, (r.set j b1.info[i])[q]? = b1.info[if q = j then i else if j < q ∧ q ≤ i then q - 1 else q]? := by
+    intro q
+    by_cases h1 : q = j
+    · subst h1; rw [if_pos rfl, List.getElem?_set_self hjl, List.getElem?_eq_getElem hil]
+    · rw [if_neg h1, List.getElem?_set_ne (by omega), hrq q]
+      have : j + (i - j) = i := by omega
+      rw [this]
+      split <;> rfl
+  have hin3 : InPlace ({ b1 with info := r.set j b1.info[i] } : Buf) := ⟨hin1.idx0, hin1.out0, by simp; omega⟩
+  refine ⟨{ b1 with info := r.set j b1.info[i] }, ?_, hin3, e2, e4, ?_, ?_⟩
+  · rw [hm]; simp only [ok_bind, get_ok hil, hr, put_ok _ hjl]; rfl
+  · refine ValuesSubset.trans ?_ hprops.subset
+    intro q v hv
+    rw [hin3.lview, cl?_take] at hv
+    simp only at hv
+    by_cases hq : q < b1.len
+    · rw [if_pos hq] at hv
+      unfold cl? at hv
+      rw [hq3 q] at hv
+      refine ⟨if q = j then i else if j < q ∧ q ≤ i then q - 1 else q, ?_⟩
+      rw [hin1.lview, cl?_take, if_pos]
+      · exact hv
+      · split
+        · omega
+        · split <;> omega
+    · rw [if_neg hq] at hv; cases hv
+  · intro hl
+    have hk1 : KeepProps (lview b) (lview b1) := ⟨hprops.subset, hprops.nonDecr, hprops.nonIncr, hmin hl⟩
+    refine hk1.trans (KeepProps.of_cl_eq ?_)
+    obtain ⟨m, hm'⟩ := hunif hl (by omega)
+    have hu : ∀ q, j ≤ q → q ≤ i → cl? b1.info q = some m := by
+      intro q h1 h2
+      have := hm' q (by rw [hin.out0, hin.idx0]; omega) (by rw [hin.out0, hin.idx0]; omega)
+      rwa [hin1.lview, cl?_take, if_pos (by omega)] at this
+    intro q
+    rw [hin3.lview, hin1.lview, cl?_take, cl?_take]
+    simp only
+    by_cases hq : q < b1.len
+    · rw [if_pos hq, if_pos hq]
+      have : cl? (r.set j b1.info[i]) q = cl? b1.info (if q = j then i else if j < q ∧ q ≤ i then q - 1 else q) := by
+        unfold cl?; rw [hq3 q]
+      rw [this]
+      by_cases h1 : q = j
+      · rw [if_pos h1, hu i (by omega) (Nat.le_refl _), h1, hu j (Nat.le_refl _) (by omega)]
+      · rw [if_neg h1]
+        by_cases h2 : j < q ∧ q ≤ i
+        · rw [if_pos h2, hu (q - 1) (by omega) (by omega), hu q (by omega) h2.2]
+        · rw [if_neg h2]
+    · rw [if_neg hq, if_neg hq]
+
+theorem sort_outer_props (start stop : Nat) (hg : Gen.Buf.extendStartGuard = 1) : ∀ (fuel : Nat) (b : Buf) (i : Nat),
+    InPlace b → stop ≤ b.len →
+    ∃ b', sort.outer start stop b i fuel = .ok b' ∧ InPlace b' ∧ b'.len = b.len ∧ b'.level = b.level ∧
+      ValuesSubset (lview b') (lview b) ∧ (b.level ≠ 2 → KeepProps (lview b) (lview b')) := by
+  intro fuel
+  induction fuel with
+  | zero => intro b i hin _; exact ⟨b, rfl, hin, rfl, rfl, ValuesSubset.refl _, fun _ => KeepProps.refl _⟩
+  | succ fuel ih =>
+    intro b i hin hstop
+    by_cases hi : i < stop
+    · have hle := hin.len_le
+      have hil : i < b.info.length := by omega
+      obtain ⟨j, hj, hji, _⟩ := sort_findJ_spec b.info b.info[i] start i (by omega)
+      simp only [sort.outer, hi, if_true, get_ok hil, ok_bind, hj]
+      by_cases hij : i = j
+      · have : (i == j) = true := by simp [hij]
+        simp only [this, if_true]
+        exact ih b (i + 1) hin hstop
+      · have : (i == j) = false := by simpa using hij
+        simp only [this, Bool.false_eq_true, if_false]
+        obtain ⟨b1, hb1, hin1, l1, lv1, hs1, hk1⟩ := sort_move b j i hin (by omega) (by omega) hg
+        cases hm : b.mergeClusters j (i + 1) with
+        | error err => rw [hm] at hb1; cases hb1
+        | ok bm =>
+          rw [hm] at hb1
+          simp only [ok_bind] at hb1 ⊢
+          cases ht : get bm.info i with
+          | error err => rw [ht] at hb1; cases hb1
+          | ok t =>
+            rw [ht] at hb1
+            simp only [ok_bind] at hb1 ⊢
+            cases hsh : sort.shift bm.info j (i - j) with
+            | error err => rw [hsh] at hb1; cases hb1
+            | ok inf =>
+              rw [hsh] at hb1
+              simp only [ok_bind] at hb1 ⊢
+              cases hp : put inf j t with
+              | error err => rw [hp] at hb1; cases hb1
+              | ok inf2 =>
+                rw [hp] at hb1
+                simp only [ok_bind] at hb1 ⊢
+                cases hb1
+                obtain ⟨b', hb', hin', l', lv', hs', hk'⟩ := ih _ (i + 1) hin1 (by rw [l1]; exact hstop)
+                exact ⟨b', hb', hin', by rw [l', l1], by rw [lv', lv1], hs'.trans hs1,
+                  fun hl => (hk1 hl).trans (hk' (by rw [lv1]; exact hl))⟩
+    · refine ⟨b, ?_, hin, rfl, rfl, ValuesSubset.refl _, fun _ => KeepProps.refl _⟩
+      simp only [sort.outer, hi, if_false]; rfl
+
+/-- **sort(start, end)**: a monotone cluster sequence stays monotone (levels 0/1); no cluster value is invented -/
+theorem sort_props (b : Buf) (start stop : Nat) (hin : InPlace b) (hstop : stop ≤ b.len) (hp : b.havePos = false)
+    (hg : Gen.Buf.extendStartGuard = 1) :
+    ∃ b', b.sort start stop = .ok b' ∧ InPlace b' ∧ b'.len = b.len ∧
+      ValuesSubset (lview b') (lview b) ∧ (b.level ≠ 2 → KeepProps (lview b) (lview b')) := by
+  obtain ⟨b', h, hin', l', _, hs, hk⟩ := sort_outer_props start stop hg (stop - start) b (start + 1) hin hstop
+  refine ⟨b', ?_, hin', l', hs, hk⟩
+  unfold sort
+  simp only [hp, Bool.false_eq_true, if_false]
+  exact h
+
+
+end RbModel.Buf
+
+namespace RbModel.Buf
+open RbModel.Mem
+
+/-! ## `replace_glyphs` -/
+
+/-- the loop `for i in 0..num_out { set_out_info(out_len + i, orig with glyph_id = glyphs[i]) }` on the array the
+    out-buffer lives in -/
+theorem replaceLoop_spec (orig : Info) : ∀ (gs : List Nat) (b : Buf) (i : Nat), b.outLen + i + gs.length ≤ b.outArr.length →
+    ∃ o, replaceGlyphs.loop orig b i gs = .ok (b.setOutArr o) ∧ o.length = b.outArr.length ∧
+      ∀ q, o[q]? = if b.outLen + i ≤ q ∧ q < b.outLen + i + gs.length
+                   then (gs[q - (b.outLen + i)]?).map (fun g => { orig with gid := g }) else b.outArr[q]? := by
+  intro gs
+  induction gs with
+  | nil =>
+    intro b i _
+    refine ⟨b.outArr, ?_, rfl, fun q => ?_⟩
+    · simp only [replaceGlyphs.loop]; rw [setOutArr_self]; rfl
+    · rw [if_neg (by simp)]
+  | cons g rest ih =>
+    intro b i h
+    simp only [List.length_cons] at h
+    have hi : b.outLen + i < b.outArr.length := by omega
+    have e0 := setOutArr_scalars b (b.outArr.set (b.outLen + i) { orig with gid := g })
+    have e1 : (b.setOutArr (b.outArr.set (b.outLen + i) { orig with gid := g })).outArr =
+        b.outArr.set (b.outLen + i) { orig with gid := g } := setOutArr_outArr _ _
+    obtain ⟨o, ho, hol, hoq⟩ := ih (b.setOutArr (b.outArr.set (b.outLen + i) { orig with gid := g })) (i + 1)
+      (by rw [e1, e0.2.2.1]; simp; omega)
+    refine ⟨o, ?_, by rw [hol, e1]; simp, fun q => ?_⟩
+    · simp only [replaceGlyphs.loop, setOut, put_ok _ hi, ok_bind, pure_bind']
+      rw [ho]
+      congr 1
+      cases hs : b.sepOut <;> simp [setOutArr, hs]
+    · rw [hoq q, e0.2.2.1, e1]
+      by_cases h1 : q = b.outLen + i
+      · subst h1
+        rw [if_neg (by omega), if_pos (by simp), List.getElem?_set_self hi]
+        simp
+      · rw [List.getElem?_set_ne (by omega)]
+        by_cases h2 : b.outLen + (i + 1) ≤ q ∧ q < b.outLen + (i + 1) + rest.length
+        · rw [if_pos h2, if_pos (by simp; omega)]
+          have : q - (b.outLen + i) = (q - (b.outLen + (i + 1))) + 1 := by omega
+          rw [this, List.getElem?_cons_succ]
+        · rw [if_neg h2, if_neg (by simp; omega)]
+
+/-- the cluster sequence after `num_in` glyphs at `P` were replaced by `num_out` glyphs carrying cluster `c` -/
+def IsSplice (L L' : List Info) (P numIn numOut c : Nat) : Prop :=
+  ∀ q, cl? L' q = if q < P then cl? L q else if q < P + numOut then some c else cl? L (q - numOut + numIn)
+
+theorem IsSplice.props {L L' : List Info} {P numIn numOut c : Nat} (h : IsSplice L L' P numIn numOut c)
+    (hc : cl? L P = some c) (hn : 1 ≤ numIn) :
+    ValuesSubset L' L ∧ (NonDecr L → NonDecr L') ∧ (NonIncr L → NonIncr L') := by
+  -- every position of L' reads the cluster of a position of L, and that map is monotone
+  have hf : ∀ q, cl? L' q = cl? L (if q < P then q else if q < P + numOut then P else q - numOut + numIn) := by
+    intro q
+    rw [h q]
+    by_cases h1 : q < P
+    · rw [if_pos h1, if_pos h1]
+    · rw [if_neg h1, if_neg h1]
+      by_cases h2 : q < P + numOut
+      · rw [if_pos h2, if_pos h2, hc]
+      · rw [if_neg h2, if_neg h2]
+  have hmono : ∀ i j, i ≤ j →
+      (if i < P then i else if i < P + numOut then P else i - numOut + numIn) ≤
+      (if j < P then j else if j < P + numOut then P else j - numOut + numIn) := by
+    intro i j hij
+    by_cases a1 : i < P <;> by_cases a2 : j < P <;> by_cases a3 : i < P + numOut <;> by_cases a4 : j < P + numOut <;>
+      simp only [a1, a2, a3, a4, if_true, if_false] <;> omega
+  refine ⟨fun q v hv => ⟨_, by rw [← hf q]; exact hv⟩, ?_, ?_⟩
+  · intro hm i j a b hij ha hb
+    rw [hf i] at ha; rw [hf j] at hb
+    exact hm _ _ a b (hmono i j hij) ha hb
+  · intro hm i j a b hij ha hb
+    rw [hf i] at ha; rw [hf j] at hb
+    exact hm _ _ a b (hmono i j hij) ha hb
+
+theorem IsSplice.min {L L' : List Info} {P numIn numOut c μ : Nat} (h : IsSplice L L' P numIn numOut c)
+    (hc : cl? L P = some c) (hn : 1 ≤ numIn) (ho : 1 ≤ numOut)
+    (hu : ∀ q v, P ≤ q → q < P + numIn → cl? L q = some v → v = c) (hmin : IsMinCluster μ L) : IsMinCluster μ L' := by
+  obtain ⟨hlow, q0, hq0⟩ := hmin
+  obtain ⟨hsub, _, _⟩ := h.props hc hn
+  refine ⟨fun q v hv => ?_, ?_⟩
+  · obtain ⟨p, hp⟩ := hsub q v hv
+    exact hlow p v hp
+  · by_cases h1 : q0 < P
+    · exact ⟨q0, by rw [h q0, if_pos h1]; exact hq0⟩
+    · by_cases h2 : q0 < P + numIn
+      · have := hu q0 μ (by omega) h2 hq0
+        exact ⟨P, by rw [h P, if_neg (by omega), if_pos (by omega), this]⟩
+      · refine ⟨q0 - numIn + numOut, ?_⟩
+        rw [h _, if_neg (by omega), if_neg (by omega)]
+        have : q0 - numIn + numOut - numOut + numIn = q0 := by omega
+        rw [this]; exact hq0
+
+
+end RbModel.Buf
+
+namespace RbModel.Buf
+open RbModel.Mem
+
+/-- **replace_glyphs(num_in, glyphs)**: the clusters of the `num_in` current glyphs are merged and every output glyph
+    carries the merged cluster -/
+theorem replaceGlyphs_props (b : Buf) (numIn : Nat) (gs : List Nat) (hinv : Inv b) (hn1 : 1 ≤ numIn)
+    (hn : b.idx + numIn ≤ b.len) (hgrow : Gen.Buf.ensureGrowOnly = true) (hg : Gen.Buf.extendStartGuard = 1) :
+    ∃ b', b.replaceGlyphs numIn gs = .ok b' ∧
+      (b' = { b with successful := false } ∨
+       (WF b' ∧ b'.idx = b.idx + numIn ∧ b'.outLen = b.outLen + gs.length ∧ b'.len = b.len ∧ b'.level = b.level ∧
+        b'.haveOutput = b.haveOutput ∧ b'.successful = b.successful ∧
+        ValuesSubset (lview b') (lview b) ∧
+        (NonDecr (lview b) → NonDecr (lview b')) ∧ (NonIncr (lview b) → NonIncr (lview b')) ∧
+        (b.level ≠ 2 → gs ≠ [] → ∀ μ, IsMinCluster μ (lview b) → IsMinCluster μ (lview b')))) := by
+  have hwf := WF.of_inv hinv
+  have hidx := hinv.idx_le
+  have hlen := hinv.len_le
+  unfold replaceGlyphs
+  rcases makeRoomFor_spec b numIn gs.length hinv hgrow with hfail | ⟨I, O, s, hok, hinv1, hcap, hs1, hs2, hout1, hinf1, hle1⟩
+  · simp only [hfail, ok_bind, Bool.not_false, if_true]
+    exact ⟨_, rfl, Or.inl rfl⟩
+  · have hlv1 : lview ({ b with info := I, out := O, sepOut := s } : Buf) = lview b := by
+      apply lview_eq_of_seq hwf (WF.of_inv hinv1)
+      exact seq_congr b { b with info := I, out := O, sepOut := s } rfl rfl rfl hlen hout1 hinf1
+    generalize hb1 : ({ b with info := I, out := O, sepOut := s } : Buf) = b1 at hok hinv1 hcap hout1 hlv1
+    have e_idx : b1.idx = b.idx := by rw [← hb1]
+    have e_len : b1.len = b.len := by rw [← hb1]
+    have e_out : b1.outLen = b.outLen := by rw [← hb1]
+    have e_lvl : b1.level = b.level := by rw [← hb1]
+    have e_ho : b1.haveOutput = b.haveOutput := by rw [← hb1]
+    have e_su : b1.successful = b.successful := by rw [← hb1]
+    have e_sep : b1.sepOut = s := by rw [← hb1]
+    have e_info : b1.info = I := by rw [← hb1]
+    have hwf1 := WF.of_inv hinv1
+    simp only [hok, ok_bind, Bool.not_true, Bool.false_eq_true, if_false]
+    have hna : ¬ b1.idx + numIn > b1.len := by rw [e_idx, e_len]; omega
+    simp only [hna, if_false]
+    obtain ⟨b2, hm, hwf2, f_idx, f_len, f_out, f_lvl, f_sep, f_ho, hprops, hmin, _, _, hunif, f_il, f_ol, f_su⟩ :=
+      mergeClusters_props b1 b1.idx (b1.idx + numIn) hwf1 (Nat.le_refl _) (by rw [e_idx, e_len]; omega) hg
+    simp only [hm, ok_bind]
+    have hil2 : b2.idx < b2.info.length := by have := hwf2.len_le; rw [f_idx, e_idx]; rw [f_len, e_len] at this; omega
+    obtain ⟨orig, horig⟩ : ∃ orig, b2.info[b2.idx] = orig := ⟨_, rfl⟩
+    have hc0 : cl? b2.info b2.idx = some orig.cluster := by rw [cl?_lt hil2, horig]
+    simp only [get_ok hil2, ok_bind, horig]
+    have hcap2 : b2.outLen + 0 + gs.length ≤ b2.outArr.length := by
+      have : b2.outArr.length = b1.outArr.length := by
+        unfold outArr; rw [f_sep]; cases b1.sepOut <;> simp [f_il, f_ol]
+      rw [this, f_out, e_out]; omega
+    obtain ⟨o, hloop, hol, hoq⟩ := replaceLoop_spec orig gs b2 0 hcap2
+    simp only [hloop, ok_bind]
+    obtain ⟨g1, g2, g3, g4, g5, g6⟩ := setOutArr_scalars b2 o
+    -- the final buffer
+    generalize hb' : ({ b2.setOutArr o with idx := (b2.setOutArr o).idx + numIn, outLen := (b2.setOutArr o).outLen + gs.length } : Buf) = b'
+    have k_idx : b'.idx = b.idx + numIn := by rw [← hb']; simp only; rw [g1, f_idx, e_idx]
+    have k_out : b'.outLen = b.outLen + gs.length := by rw [← hb']; simp only; rw [g3, f_out, e_out]
+    have k_len : b'.len = b.len := by rw [← hb']; simp only; rw [g2, f_len, e_len]
+    have k_lvl : b'.level = b.level := by rw [← hb']; simp only; rw [g4, f_lvl, e_lvl]
+    have k_ho : b'.haveOutput = b.haveOutput := by rw [← hb']; simp only; rw [g6, f_ho, e_ho]
+    have k_su : b'.successful = b.successful := by
+      rw [← hb']; simp only
+      have : (b2.setOutArr o).successful = b2.successful := by cases hs : b2.sepOut <;> simp [setOutArr, hs]
+      rw [this, f_su, e_su]
+    have k_sep : b'.sepOut = b2.sepOut := by rw [← hb']; simp only; rw [g5]
+    have k_outArr : b'.outArr = o := by
+      rw [← hb']; unfold outArr; simp only
+      cases hs : b2.sepOut <;> simp [setOutArr, hs]
+    have k_info_sep : b2.sepOut = true → b'.info = b2.info := by
+      intro hs; rw [← hb']; simp only; exact setOutArr_info_sep b2 o hs
+    have k_info_nosep : b2.sepOut = false → b'.info = o := by
+      intro hs; rw [← hb']; simp only; exact setOutArr_info_nosep b2 o hs
+    have hsep2 : b2.sepOut = s := by rw [f_sep, e_sep]
+    have hol' : o.length = b2.outArr.length := hol
+    have hwf' : WF b' := by
+      refine ⟨by omega, ?_, ?_, ?_⟩
+      · rw [k_len]
+        cases hs : b2.sepOut with
+        | true => rw [k_info_sep hs]; have := hwf2.len_le; rw [f_len, e_len] at this; exact this
+        | false =>
+          rw [k_info_nosep hs, hol']; have := hwf2.len_le; rw [f_len, e_len] at this
+          simpa [outArr, hs] using this
+      · intro hs
+        rw [k_sep] at hs
+        have : b'.out = o := by rw [← k_outArr]; simp [outArr, k_sep, hs]
+        rw [this, hol', k_out]
+        have := hcap2; rw [f_out, e_out] at this; omega
+      · intro hs
+        rw [k_sep] at hs
+        rw [k_out, k_idx]
+        exact hs1 (by rw [← hsep2]; exact hs)
+    -- the logical sequence of the result
+    have hseq' : ∀ q, seq b' q = if q < b.outLen then seq b2 q
+        else if q < b.outLen + gs.length then (gs[q - b.outLen]?).map (fun g => { orig with gid := g })
+        else seq b2 (q - gs.length + numIn) := by
+      intro q
+      unfold seq
+      rw [k_out, k_idx, k_len, k_outArr, f_out, e_out, f_idx, e_idx, f_len, e_len]
+      by_cases h1 : q < b.outLen
+      · rw [if_pos (by omega), if_pos h1, if_pos h1, hoq q, if_neg (by rw [f_out, e_out]; omega)]
+      · rw [if_neg h1]
+        by_cases h2 : q < b.outLen + gs.length
+        · rw [if_pos h2, if_pos h2, hoq q, if_pos (by rw [f_out, e_out]; omega), f_out, e_out]
+          simp
+        · have e1 : ¬ q - gs.length + numIn < b.outLen := by omega
+          rw [if_neg h2, if_neg h2, if_neg e1]
+          by_cases h3 : q - (b.outLen + gs.length) < b.len - (b.idx + numIn)
+          · have e2 : q - gs.length + numIn - b.outLen < b.len - b.idx := by omega
+            rw [if_pos h3, if_pos e2]
+            have hix : b.idx + (q - gs.length + numIn - b.outLen) = b.idx + numIn + (q - (b.outLen + gs.length)) := by omega
+            rw [hix]
+            cases hs : b2.sepOut with
+            | true => rw [k_info_sep hs]
+            | false =>
+              have hns := hs1 (by rw [← hsep2]; exact hs)
+              have e3 : ¬ (b2.outLen + 0 ≤ b.idx + numIn + (q - (b.outLen + gs.length)) ∧
+                  b.idx + numIn + (q - (b.outLen + gs.length)) < b2.outLen + 0 + gs.length) := by
+                rw [f_out, e_out]; omega
+              rw [k_info_nosep hs, hoq _, if_neg e3]
+              simp [outArr, hs]
+          · have e2 : ¬ q - gs.length + numIn - b.outLen < b.len - b.idx := by omega
+            rw [if_neg h3, if_neg e2]
+    -- clusters
+    have hP : b.outLen < (lview b2).length := by
+      rw [lview_length b2 hwf2]; unfold total; rw [f_out, e_out, f_len, e_len, f_idx, e_idx]; omega
+    have hc : cl? (lview b2) b.outLen = some orig.cluster := by
+      rw [lview_cl_in b2 hwf2 _ (by rw [f_out, e_out]; exact Nat.le_refl _) (by unfold total; rw [f_out, e_out, f_len, e_len, f_idx, e_idx]; omega),
+        f_out, e_out, Nat.sub_self, Nat.add_zero, hc0]
+    have hsplice : IsSplice (lview b2) (lview b') b.outLen numIn gs.length orig.cluster := by
+      intro q
+      unfold cl?
+      rw [lview_getElem? _ hwf', hseq' q]
+      by_cases h1 : q < b.outLen
+      · rw [if_pos h1, if_pos h1, lview_getElem? _ hwf2]
+      · rw [if_neg h1, if_neg h1]
+        by_cases h2 : q < b.outLen + gs.length
+        · rw [if_pos h2, if_pos h2]
+          have : q - b.outLen < gs.length := by omega
+          rw [List.getElem?_eq_getElem this]; rfl
+        · rw [if_neg h2, if_neg h2, lview_getElem? _ hwf2]
+    obtain ⟨p1, p2, p3⟩ := hsplice.props hc hn1
+    refine ⟨b', rfl, Or.inr ⟨hwf', k_idx, k_out, k_len, k_lvl, k_ho, k_su, ?_, ?_, ?_, ?_⟩⟩
+    · rw [← hlv1]; exact p1.trans hprops.subset
+    · intro h; rw [← hlv1] at h; exact p2 (hprops.nonDecr h)
+    · intro h; rw [← hlv1] at h; exact p3 (hprops.nonIncr h)
+    · intro hl hgs μ hμ
+      rw [← hlv1] at hμ
+      have hl1 : b1.level ≠ 2 := by rw [e_lvl]; exact hl
+      have ho1 : 1 ≤ gs.length := by cases gs with | nil => exact absurd rfl hgs | cons _ _ => simp
+      apply hsplice.min hc hn1 ho1 _ (hmin hl1 μ hμ)
+      intro q v h1 h2 hv
+      by_cases hone : numIn = 1
+      · have : q = b.outLen := by omega
+        rw [this, hc] at hv; exact (Option.some.inj hv).symm
+      · obtain ⟨m, hm'⟩ := hunif hl1 (by omega)
+        have a1 := hm' q (by rw [e_out, Nat.sub_self]; omega) (by rw [e_out]; omega)
+        have a2 := hm' b.outLen (by rw [e_out, Nat.sub_self]; omega) (by rw [e_out]; omega)
+        rw [hv] at a1; rw [hc] at a2
+        have := Option.some.inj a1; have := Option.some.inj a2; omega
+
+
+end RbModel.Buf
+
+namespace RbModel.Buf
+open RbModel.Mem
+
+/-! ## `form_clusters` -/
+
+theorem graphemeEndLoop_spec (l : List Info) (len : Nat) (hlen : len ≤ l.length) : ∀ (fuel i : Nat), 1 ≤ i →
+    ∃ r, graphemeEndLoop l len i fuel = .ok r ∧ i ≤ r ∧ (i ≤ len → r ≤ len) := by
+  intro fuel
+  induction fuel with
+  | zero => intro i _; exact ⟨i, rfl, Nat.le_refl _, fun h => h⟩
+  | succ fuel ih =>
+    intro i hi
+    by_cases hlt : i < len
+    · have h0 : ¬ i = 0 := by omega
+      have ha : i - 1 < l.length := by omega
+      have hc : i < l.length := by omega
+      simp only [graphemeEndLoop, hlt, if_true, h0, if_false, get_ok ha, get_ok hc, ok_bind]
+      split
+      · obtain ⟨r, hr, h1, h2⟩ := ih (i + 1) (by omega)
+        exact ⟨r, hr, by omega, fun _ => h2 (by omega)⟩
+      · exact ⟨i, rfl, Nat.le_refl _, fun h => h⟩
+    · simp only [graphemeEndLoop, hlt, if_false]
+      exact ⟨i, rfl, Nat.le_refl _, fun h => h⟩
+
+theorem graphemeEnd_spec (b : Buf) (start : Nat) (hlen : b.len ≤ b.info.length) :
+    ∃ r, b.graphemeEnd start = .ok r ∧ start < r ∧ (start < b.len → r ≤ b.len) := by
+  obtain ⟨r, hr, h1, h2⟩ := graphemeEndLoop_spec b.info b.len hlen (b.len - start) (start + 1) (by omega)
+  exact ⟨r, hr, by omega, fun h => h2 (by omega)⟩
+
+/-- what one body of the `foreach_grapheme` loop of form_clusters does to the cluster sequence -/
+theorem formBody_props (b : Buf) (merge : Bool) (s e : Nat) (hin : InPlace b) (hse : s ≤ e) (he : e ≤ b.len)
+    (hlvl : merge = true → b.level ≠ 2) (hg : Gen.Buf.extendStartGuard = 1) :
+    ∃ b', (if merge then b.mergeClusters s e else b.unsafeToBreak s (some e)) = .ok b' ∧ InPlace b' ∧ b'.len = b.len ∧
+      b'.level = b.level ∧ KeepProps (lview b) (lview b') := by
+  cases merge with
+  | true =>
+    obtain ⟨b1, hm, hwf1, e1, e2, e3, e4, _, _, hprops, hmin, _⟩ :=
+      mergeClusters_props b s e hin.wf (by rw [hin.idx0]; omega) he hg
+    exact ⟨b1, by simpa using hm, ⟨by rw [e1]; exact hin.idx0, by rw [e3]; exact hin.out0, hwf1.len_le⟩, e2, e4,
+      ⟨hprops.subset, hprops.nonDecr, hprops.nonIncr, hmin (hlvl rfl)⟩⟩
+  | false =>
+    obtain ⟨b1, hb, hf⟩ := unsafeToBreak_ok b s e hin.wf hse he
+    have h1 := hf.1
+    have hwf1 := hf.wf hin.wf
+    refine ⟨b1, by simpa using hb, ⟨by rw [h1]; exact hin.idx0, by rw [h1]; exact hin.out0, hwf1.len_le⟩, by rw [h1], by rw [h1],
+      KeepProps.of_cl_eq hf.cl⟩
+
+theorem formLoop_props (merge : Bool) (count : Nat) (hg : Gen.Buf.extendStartGuard = 1) : ∀ (fuel : Nat) (b : Buf) (s e : Nat),
+    InPlace b → b.len = count → s < e → (s < count → e ≤ count) → (merge = true → b.level ≠ 2) →
+    ∃ b', formLoop merge count b s e fuel = .ok b' ∧ InPlace b' ∧ b'.len = b.len ∧ b'.level = b.level ∧
+      KeepProps (lview b) (lview b') := by
+  intro fuel
+  induction fuel with
+  | zero => intro b s e hin _ _ _ _; exact ⟨b, rfl, hin, rfl, rfl, KeepProps.refl _⟩
+  | succ fuel ih =>
+    intro b s e hin hc hse he hl
+    by_cases hs : s < count
+    · obtain ⟨b1, hb1, hin1, l1, lv1, hk1⟩ := formBody_props b merge s e hin (by omega) (by rw [hc]; exact he hs) hl hg
+      obtain ⟨r, hr, hr1, hr2⟩ := graphemeEnd_spec b1 e hin1.len_le
+      obtain ⟨b', hb', hin', l', lv', hk'⟩ := ih b1 e r hin1 (by rw [l1, hc]) hr1
+        (fun h => by have := hr2 (by rw [l1, hc]; exact h); rw [l1, hc] at this; exact this)
+        (fun h => by rw [lv1]; exact hl h)
+      refine ⟨b', ?_, hin', by rw [l', l1], by rw [lv', lv1], hk1.trans hk'⟩
+      simp only [formLoop, hs, if_true]
+      cases merge
+      · simp only [Bool.false_eq_true, if_false] at hb1 ⊢
+        rw [hb1]; simp only [ok_bind, hr]; exact hb'
+      · simp only [if_true] at hb1 ⊢
+        rw [hb1]; simp only [ok_bind, hr]; exact hb'
+    · refine ⟨b, ?_, hin, rfl, rfl, KeepProps.refl _⟩
+      simp only [formLoop, hs, if_false]; rfl
+
+/-- **form_clusters** adds no cluster value, keeps the minimum and keeps a monotone sequence monotone (all levels) -/
+theorem formClusters_props (b : Buf) (hin : InPlace b) (hg : Gen.Buf.extendStartGuard = 1) :
+    ∃ b', b.formClusters = .ok b' ∧ InPlace b' ∧ b'.len = b.len ∧ b'.level = b.level ∧ KeepProps (lview b) (lview b') := by
+  unfold formClusters
+  by_cases hsc : (b.scratch &&& SCRATCH_HAS_NON_ASCII == 0) = true
+  · simp only [hsc, if_true]
+    exact ⟨b, rfl, hin, rfl, rfl, KeepProps.refl _⟩
+  · simp only [hsc, Bool.false_eq_true, if_false]
+    have hl : (b.level == 0) = true → b.level ≠ 2 := by
+      intro h; have : b.level = 0 := by simpa using h
+      rw [this]; decide
+    by_cases h0 : b.len > 0
+    · obtain ⟨r, hr, hr1, hr2⟩ := graphemeEnd_spec b 0 hin.len_le
+      simp only [h0, if_true, hr, ok_bind]
+      exact formLoop_props (b.level == 0) b.len hg (b.len + 1) b 0 r hin rfl hr1 (fun h => hr2 h) hl
+    · simp only [h0, if_false, pure_bind']
+      have hz : b.len = 0 := by omega
+      refine ⟨b, ?_, hin, rfl, rfl, KeepProps.refl _⟩
+      rw [hz]; simp [formLoop]; rfl
+
+
+end RbModel.Buf
+
+namespace RbModel.Buf
+open RbModel.Mem
+
+/-! ## direction handling of the pipeline -/
+
+/-- what a reversal guarantees: the sense of a monotone sequence flips, values and minimum stay -/
+structure FlipProps (L L' : List Info) : Prop where
+  subset : ValuesSubset L' L
+  flipUp : NonDecr L → NonIncr L'
+  flipDown : NonIncr L → NonDecr L'
+  min : ∀ μ, IsMinCluster μ L → IsMinCluster μ L'
+
+theorem FlipProps.of_reverse_clusters {L L' : List Info}
+    (h : L'.map (·.cluster) = (L.map (·.cluster)).reverse) : FlipProps L L' := by
+  have hcl : ∀ q, cl? L' q = cl? L.reverse q := by
+    intro q
+    have e1 : cl? L' q = (L'.map (·.cluster))[q]? := by unfold cl?; rw [List.getElem?_map]
+    have e2 : cl? L.reverse q = (L.reverse.map (·.cluster))[q]? := by unfold cl?; rw [List.getElem?_map]
+    rw [e1, e2, h, List.map_reverse]
+  exact ⟨(valuesSubset_of_cl_eq hcl).trans (valuesSubset_reverse L),
+    fun hm => nonIncr_of_cl_eq hcl (nonIncr_reverse hm), fun hm => nonDecr_of_cl_eq hcl (nonDecr_reverse hm),
+    fun μ hμ => isMin_of_cl_eq hcl (isMin_reverse hμ)⟩
+
+theorem FlipProps.of_reverse {L L' : List Info} (h : L' = L.reverse) : FlipProps L L' :=
+  FlipProps.of_reverse_clusters (by rw [h, List.map_reverse])
+
+/-- **`_hb_ot_layout_reverse_graphemes`**: at level 1 it merges every grapheme first; at the other levels the
+    graphemes must already carry one cluster each (what form_clusters does at level 0) -/
+theorem reverseGraphemes_props (b : Buf) (hin : InPlace b) (hc : b.level ≠ 1 → GraphemesClosed b.info b.len)
+    (hg : Gen.Buf.extendStartGuard = 1) :
+    ∃ b', b.reverseGraphemes = .ok b' ∧ InPlace b' ∧ b'.len = b.len ∧ FlipProps (lview b) (lview b') := by
+  unfold reverseGraphemes
+  by_cases hl : b.level = 1
+  · have : (b.level == 1) = true := by simp [hl]
+    rw [this]
+    obtain ⟨b', h, hin', l', p1, p2, p3, p4⟩ := reverseGroupsG_merge_props b hin (by omega) hg
+    exact ⟨b', h, hin', l', ⟨p1, p2, p3, p4⟩⟩
+  · have : (b.level == 1) = false := by simpa using hl
+    rw [this]
+    obtain ⟨b', h, hin', l', hrev⟩ := reverseGroupsG_nomerge_props b hin (hc hl)
+    exact ⟨b', h, hin', l', FlipProps.of_reverse_clusters hrev⟩
+
+/-- `ensure_native_direction` either leaves the buffer alone or reverses its graphemes and flips the direction -/
+theorem ensureNativeDirection_cases (b : Buf) (dir hor0 : Nat) (b' : Buf) (d' : Nat)
+    (h : b.ensureNativeDirection dir hor0 = .ok (b', d')) :
+    (b' = b ∧ d' = dir) ∨ (b.reverseGraphemes = .ok b' ∧ d' = Dir.reverse dir) := by
+  have key : ∀ hor : Nat,
+      (if (Dir.isHorizontal dir && dir != hor && hor != Dir.INVALID || Dir.isVertical dir && dir != Dir.TTB) = true then
+          (b.reverseGraphemes >>= fun b1 => pure (b1, Dir.reverse dir)) else (pure (b, dir) : M (Buf × Nat))) = .ok (b', d') →
+      (b' = b ∧ d' = dir) ∨ (b.reverseGraphemes = .ok b' ∧ d' = Dir.reverse dir) := by
+    intro hor h
+    split at h
+    · obtain ⟨b1, hb1, h⟩ := bind_eq_ok h
+      cases h
+      exact Or.inr ⟨hb1, rfl⟩
+    · cases h
+      exact Or.inl ⟨rfl, rfl⟩
+  unfold ensureNativeDirection at h
+  simp only at h
+  split at h
+  · obtain ⟨x, _, h⟩ := bind_eq_ok h
+    split at h
+    · exact key _ h
+    · exact key _ h
+  · exact key _ h
+
+/-- the last step of `position()`: a backward run is reversed once, a forward run is left alone -/
+theorem finalReverse_props (b : Buf) (dir : Nat) (hin : InPlace b) :
+    ∃ b', b.finalReverse dir = .ok b' ∧ InPlace b' ∧ b'.len = b.len ∧
+      ((Dir.isBackward dir = true ∧ lview b' = (lview b).reverse) ∨ (Dir.isBackward dir = false ∧ b' = b)) := by
+  unfold finalReverse
+  cases hd : Dir.isBackward dir with
+  | true =>
+    obtain ⟨b', h, hin', l', _, hrev⟩ := reverse_spec b hin
+    exact ⟨b', by simpa using h, hin', l', Or.inl ⟨rfl, hrev⟩⟩
+  | false => exact ⟨b, rfl, hin, rfl, Or.inr ⟨rfl, rfl⟩⟩
+
+
+end RbModel.Buf
+
+namespace RbModel.Buf
+open RbModel.Mem
+
+/-! ## every primitive: no cluster value is invented -/
+
+theorem setMasks_flagsOnly {b b' : Buf} {v m cs ce : Nat} (h : b.setMasks v m cs ce = .ok b') : FlagsOnly b b' := by
+  unfold setMasks at h
+  split at h
+  · cases h; exact FlagsOnly.refl b
+  · split at h
+    · cases h
+    · cases h
+      refine ⟨rfl, ?_, OnlyMask.refl _⟩
+      unfold OnlyMask
+      simp only
+      rw [List.map_append, List.map_map]
+      conv => rhs; rw [← List.take_append_drop b.len b.info, List.map_append]
+      congr 1
+      apply List.map_congr_left
+      intro x _
+      simp only [Function.comp]
+      split <;> rfl
+
+theorem resetMasks_flagsOnly {b b' : Buf} {m : Nat} (h : b.resetMasks m = .ok b') : FlagsOnly b b' := by
+  unfold resetMasks at h
+  split at h
+  · cases h
+  · cases h
+    refine ⟨rfl, ?_, OnlyMask.refl _⟩
+    unfold OnlyMask
+    simp only
+    rw [List.map_append, List.map_map]
+    conv => rhs; rw [← List.take_append_drop b.len b.info, List.map_append]
+    congr 1
+
+/-- cluster values of the logical glyph sequence -/
+def clusters (b : Buf) : List Nat := (lview b).map (·.cluster)
+
+theorem mem_clusters {b : Buf} {c : Nat} : c ∈ clusters b ↔ ∃ q, cl? (lview b) q = some c := by
+  unfold clusters cl?
+  rw [List.mem_map]
+  constructor
+  · rintro ⟨x, hx, rfl⟩
+    obtain ⟨q, hq⟩ := List.mem_iff_getElem?.1 hx
+    exact ⟨q, by rw [hq]; rfl⟩
+  · rintro ⟨q, hq⟩
+    cases hx : (lview b)[q]? with
+    | none => rw [hx] at hq; cases hq
+    | some x =>
+      rw [hx] at hq
+      exact ⟨x, List.mem_iff_getElem?.2 ⟨q, hx⟩, Option.some.inj hq⟩
+
+theorem subset_of_valuesSubset {b b' : Buf} (h : ValuesSubset (lview b') (lview b)) : ∀ c ∈ clusters b', c ∈ clusters b := by
+  intro c hc
+  obtain ⟨q, hq⟩ := mem_clusters.1 hc
+  obtain ⟨p, hp⟩ := h q c hq
+  exact mem_clusters.2 ⟨p, hp⟩
+
+/-- the buffer primitives of buffer.rs (and the cluster pipeline steps) as data -/
+inductive Op where
+  | next | nexts (n : Nat) | copy | skip | repl (g : Nat) | repls (numIn : Nat) (gs : List Nat)
+  | outg (g : Nat) | outi (x : Info) | del | merge (s e : Nat) | mergeOut (s e : Nat) | moveTo (i : Nat) | sync
+  | utb (s : Nat) (e : Option Nat) | utbo (s : Nat) (e : Option Nat) | utc (s : Nat) (e : Option Nat)
+  | utco (s : Nat) (e : Option Nat) | tatweel (s : Nat) (e : Option Nat)
+  | setMasks (v m cs ce : Nat) | resetMasks (m : Nat)
+  | reverse | sort (s e : Nat) | formClusters | finalReverse (dir : Nat)
+
+def Op.run : Op → Buf → M Buf
+  | .next, b => b.nextGlyph
+  | .nexts n, b => b.nextGlyphs n
+  | .copy, b => b.copyGlyph
+  | .skip, b => pure b.skipGlyph
+  | .repl g, b => b.replaceGlyph g
+  | .repls n gs, b => b.replaceGlyphs n gs
+  | .outg g, b => b.outputGlyph g
+  | .outi x, b => b.outputInfo x
+  | .del, b => b.deleteGlyph
+  | .merge s e, b => b.mergeClusters s e
+  | .mergeOut s e, b => b.mergeOutClusters s e
+  | .moveTo i, b => do let (b, _) ← b.moveTo i; pure b
+  | .sync, b => do let (b, _) ← b.sync; pure b
+  | .utb s e, b => b.unsafeToBreak s e
+  | .utbo s e, b => b.unsafeToBreakFromOut s e
+  | .utc s e, b => b.unsafeToConcat s e
+  | .utco s e, b => b.unsafeToConcatFromOut s e
+  | .tatweel s e, b => b.safeToInsertTatweel s e
+  | .setMasks v m cs ce, b => b.setMasks v m cs ce
+  | .resetMasks m, b => b.resetMasks m
+  | .reverse, b => b.reverse
+  | .sort s e, b => b.sort s e
+  | .formClusters, b => b.formClusters
+  | .finalReverse d, b => b.finalReverse d
+
+/-- the cluster values a primitive is handed from outside -/
+def Op.supplied : Op → List Nat
+  | .outi x => [x.cluster]
+  | _ => []
+
+/-- callers' preconditions: the streaming primitives run in the in/out mode (`Inv`) with a current glyph where they
+    read one, ranges lie inside the buffer, the whole-buffer routines run in in-place mode -/
+def Op.Pre : Op → Buf → Prop
+  | .next, b => Inv b ∧ b.idx < b.len
+  | .nexts n, b => Inv b ∧ b.idx + n ≤ b.len
+  | .copy, b => Inv b ∧ b.idx < b.len
+  | .skip, b => WF b ∧ b.idx < b.len
+  | .repl _, b => Inv b ∧ b.idx < b.len
+  | .repls n _, b => Inv b ∧ 1 ≤ n ∧ b.idx + n ≤ b.len
+  | .outg _, b => Inv b
+  | .outi _, b => Inv b
+  | .del, b => WF b ∧ b.idx < b.len
+  | .merge s e, b => WF b ∧ b.idx ≤ s ∧ e ≤ b.len
+  | .mergeOut _ e, b => WF b ∧ e ≤ b.outLen
+  | .moveTo i, b => Inv b ∧ i ≤ total b
+  | .sync, b => Inv b
+  | .sort _ e, b => InPlace b ∧ e ≤ b.len ∧ b.havePos = false
+  | .reverse, b => InPlace b
+  | .formClusters, b => InPlace b
+  | .finalReverse _, b => InPlace b
+  | _, _ => True
+
+theorem Op.subset (op : Op) (b b' : Buf) (hpre : op.Pre b) (h : op.run b = .ok b')
+    (hgrow : Gen.Buf.ensureGrowOnly = true) (hrew : Gen.Buf.moveToRewindReversed = true) (hg : Gen.Buf.extendStartGuard = 1) :
+    b'.successful = false ∨ ∀ c ∈ clusters b', c ∈ clusters b ∨ c ∈ op.supplied := by
+  have fromVS : ValuesSubset (lview b') (lview b) → b'.successful = false ∨ ∀ c ∈ clusters b', c ∈ clusters b ∨ c ∈ op.supplied :=
+    fun hv => Or.inr (fun c hc => Or.inl (subset_of_valuesSubset hv c hc))
+  have fromEq : lview b' = lview b → b'.successful = false ∨ ∀ c ∈ clusters b', c ∈ clusters b ∨ c ∈ op.supplied :=
+    fun he => fromVS (by rw [he]; exact ValuesSubset.refl _)
+  have fromFlags : FlagsOnly b b' → b'.successful = false ∨ ∀ c ∈ clusters b', c ∈ clusters b ∨ c ∈ op.supplied :=
+    fun hf => fromVS hf.props.subset
+  cases op with
+  | next =>
+    obtain ⟨b1, h1, _, hl⟩ := nextGlyph_keep b hpre.1 hpre.2 hgrow
+    rw [Op.run, h1] at h; cases h; exact fromEq hl
+  | nexts n =>
+    obtain ⟨b1, h1, _, hl⟩ := nextGlyphs_keep b n hpre.1 hpre.2 hgrow
+    rw [Op.run, h1] at h; cases h; exact fromEq hl
+  | copy =>
+    obtain ⟨b1, h1, _, hk⟩ := copyGlyph_keep b hpre.1 hpre.2 hgrow
+    rw [Op.run, h1] at h; cases h; exact fromVS hk.subset
+  | skip =>
+    cases h
+    rw [show lview b.skipGlyph = (lview b).eraseIdx b.outLen from skipGlyph_lview b hpre.1 hpre.2] at *
+    exact Or.inr (fun c hc => Or.inl (subset_of_valuesSubset (by rw [skipGlyph_lview b hpre.1 hpre.2]; exact valuesSubset_eraseIdx _ _) c hc))
+  | repl g =>
+    obtain ⟨b1, h1, _, hcl⟩ := replaceGlyph_keep b g hpre.1 hpre.2 hgrow
+    rw [Op.run, h1] at h; cases h; exact fromVS (valuesSubset_of_cl_eq hcl)
+  | repls n gs =>
+    obtain ⟨b1, h1, hc⟩ := replaceGlyphs_props b n gs hpre.1 hpre.2.1 hpre.2.2 hgrow hg
+    rw [Op.run, h1] at h; cases h
+    rcases hc with hf | ⟨_, _, _, _, _, _, _, hs, _⟩
+    · left; rw [hf]
+    · exact fromVS hs
+  | outg g =>
+    obtain ⟨b1, h1, hc⟩ := outputGlyph_keep b g hpre hgrow
+    rw [Op.run, h1] at h; cases h
+    rcases hc with hf | hk
+    · exact Or.inl hf
+    · exact fromVS hk.subset
+  | outi x =>
+    obtain ⟨b1, h1, _, hs⟩ := outputInfo_keep b x hpre hgrow
+    rw [Op.run, h1] at h; cases h
+    right
+    intro c hc
+    obtain ⟨q, hq⟩ := mem_clusters.1 hc
+    rcases hs q c hq with h2 | ⟨p, hp⟩
+    · right; simp [Op.supplied, h2]
+    · left; exact mem_clusters.2 ⟨p, hp⟩
+  | del =>
+    obtain ⟨b1, h1, _, _, _, _, _, _, _, _, hs, _⟩ := deleteGlyph_props b hpre.1 hpre.2 hg
+    rw [Op.run, h1] at h; cases h; exact fromVS hs
+  | merge s e =>
+    obtain ⟨b1, h1, _, _, _, _, _, _, _, hp, _⟩ := mergeClusters_props b s e hpre.1 hpre.2.1 hpre.2.2 hg
+    rw [Op.run, h1] at h; cases h; exact fromVS hp.subset
+  | mergeOut s e =>
+    obtain ⟨b1, h1, _, _, _, _, _, _, _, hp, _⟩ := mergeOutClusters_props b s e hpre.1 hpre.2
+    rw [Op.run, h1] at h; cases h; exact fromVS hp.subset
+  | moveTo i =>
+    obtain ⟨b1, r, h1, hf, ht⟩ := moveTo_keep b i hpre.1 hpre.2 hgrow hrew
+    simp only [Op.run, h1, ok_bind] at h
+    cases h
+    cases r with
+    | false => exact Or.inl (hf rfl)
+    | true => exact fromEq (ht rfl).2
+  | sync =>
+    obtain ⟨b1, r, h1, hc⟩ := sync_keep b hpre hgrow
+    simp only [Op.run, h1, ok_bind] at h
+    cases h
+    rcases hc with hf | ⟨_, _, _, hl⟩
+    · exact Or.inl hf
+    · exact fromEq hl
+  | utb s e => exact fromFlags (unsafeToBreak_flagsOnly h)
+  | utbo s e => exact fromFlags (unsafeToBreakFromOut_flagsOnly h)
+  | utc s e => exact fromFlags (unsafeToConcat_flagsOnly h)
+  | utco s e => exact fromFlags (unsafeToConcatFromOut_flagsOnly h)
+  | tatweel s e => exact fromFlags (safeToInsertTatweel_flagsOnly h)
+  | setMasks v m cs ce => exact fromFlags (setMasks_flagsOnly h)
+  | resetMasks m => exact fromFlags (resetMasks_flagsOnly h)
+  | reverse =>
+    obtain ⟨b1, h1, _, _, _, hrev⟩ := reverse_spec b hpre
+    rw [Op.run, h1] at h; cases h; exact fromVS (by rw [hrev]; exact valuesSubset_reverse _)
+  | sort s e =>
+    obtain ⟨b1, h1, _, _, hs, _⟩ := sort_props b s e hpre.1 hpre.2.1 hpre.2.2 hg
+    rw [Op.run, h1] at h; cases h; exact fromVS hs
+  | formClusters =>
+    obtain ⟨b1, h1, _, _, _, hk⟩ := formClusters_props b hpre hg
+    rw [Op.run, h1] at h; cases h; exact fromVS hk.subset
+  | finalReverse d =>
+    obtain ⟨b1, h1, _, _, hc⟩ := finalReverse_props b d hpre
+    rw [Op.run, h1] at h; cases h
+    rcases hc with ⟨_, hrev⟩ | ⟨_, he⟩
+    · exact fromVS (by rw [hrev]; exact valuesSubset_reverse _)
+    · exact fromEq (by rw [he])
+
+
+/-- a run of primitives, each applied within its precondition and none hitting the length budget -/
+inductive Runs : Buf → List Op → Buf → Prop
+  | nil (b : Buf) : Runs b [] b
+  | cons {b b1 b2 : Buf} {op : Op} {ops : List Op} : op.Pre b → op.run b = .ok b1 → b1.successful = true →
+      Runs b1 ops b2 → Runs b (op :: ops) b2
+
+theorem Runs.subset {b b' : Buf} {ops : List Op} (h : Runs b ops b')
+    (hgrow : Gen.Buf.ensureGrowOnly = true) (hrew : Gen.Buf.moveToRewindReversed = true) (hg : Gen.Buf.extendStartGuard = 1) :
+    ∀ c ∈ clusters b', c ∈ clusters b ∨ ∃ op ∈ ops, c ∈ op.supplied := by
+  induction h with
+  | nil b => intro c hc; exact Or.inl hc
+  | @cons b0 b1 b2 op ops hpre hrun hsucc _ ih =>
+    intro c hc
+    rcases ih c hc with h1 | ⟨op', hop', hc'⟩
+    · rcases Op.subset op b0 b1 hpre hrun hgrow hrew hg with hf | hs
+      · rw [hsucc] at hf; cases hf
+      · rcases hs c h1 with h2 | h2
+        · exact Or.inl h2
+        · exact Or.inr ⟨op, List.mem_cons_self, h2⟩
+    · exact Or.inr ⟨op', List.mem_cons_of_mem _ hop', hc'⟩
 
 end RbModel.Buf
